@@ -315,9 +315,10 @@ theorem callMethod_ok (cfg : Cfg) (fns : UserFns) (hy : Hyp cfg fns) (defs : Lis
     (hn : NamesOK cfg defs)
     (ha : argsValid cfg (defs.map (·.toIField)) a = true)
     (hs : serTopOK cfg (defs.map (·.toIField)) = true) :
-    ∃ g calls, givenOf fns cfg.snake defs a = .ok g ∧
+    ∃ g, givenOf fns cfg.snake defs a = .ok g ∧ kwOf g = kwP fns cfg.snake defs a ∧
+      (methodP cfg defs opName opText async).locals.query ∉ pys cfg defs ∧
       callMethod fns cls (methodP cfg defs opName opText async) (kwOf g)
-        = .ok ⟨opText, dictOf cfg fns (defs.map (·.toIField)) a, [], calls⟩ := by
+        = .ok ⟨opText, dictOf cfg fns (defs.map (·.toIField)) a, [], dictCalls cfg (defs.map (·.toIField)) a⟩ := by
   obtain ⟨hlen', hzip⟩ := argsValid_zip cfg _ _ ha
   have hlen : defs.length = a.length := by simpa using hlen'
   obtain ⟨g, hg, hkw⟩ := givenOf_kw fns cfg.snake defs a (objsOK_of_valid cfg fns hy _ _ ha)
@@ -412,7 +413,7 @@ theorem callMethod_ok (cfg : Cfg) (fns : UserFns) (hy : Hyp cfg fns) (defs : Lis
     simp only [Function.comp]
     rw [itemP_value cfg fns hy d]
     rfl
-  obtain ⟨calls, hev⟩ := evalDict_ok cfg fns env1 defs a hlen
+  have hev := evalDict_ok cfg fns env1 defs a hlen
     (by
       intro dv h
       have hmem : pyVar cfg.snake dv.1.name ∈ pys cfg defs := List.mem_map_of_mem (List.of_mem_zip h).1
@@ -439,7 +440,7 @@ theorem callMethod_ok (cfg : Cfg) (fns : UserFns) (hy : Hyp cfg fns) (defs : Lis
       rcases hvalid dv.1 dv.2 h with ⟨_, h2⟩ | h2
       · rw [hnn] at h2; cases h2
       · exact custom_of_scalar_type cfg _ _ h2 (isScalar_of_serOfType cfg _ f hf) hst.1 hst.2)
-  refine ⟨g, calls, hg, ?_⟩
+  refine ⟨g, hg, hkw, hLqNot, ?_⟩
   have hop : m.opText = opText := by rw [hm]; rfl
   rw [hop] at henv1
   -- no parameter is subject to private-name mangling: the compiled method is the emitted one
@@ -514,14 +515,14 @@ theorem send_delivers (cfg : Cfg) (fns : UserFns) (hy : Hyp cfg fns) (defs : Lis
     simp only [anyTrigger, Bool.or_eq_false_iff] at ht
     exact serTopOK_of_triggers cfg fns hy defs ht.1.2 ht.2
   obtain ⟨st, hadd⟩ := addMethod_ok cfg defs opName opText async hk
-  obtain ⟨g, calls, hg, hcall⟩ := callMethod_ok cfg fns hy defs a opName opText cls async hn ha hs
+  obtain ⟨g, hg, hkwg, hLqn, hcall⟩ := callMethod_ok cfg fns hy defs a opName opText cls async hn ha hs
   have hnd : (names (defs.map (·.toIField))).Nodup := by
     simpa [names, List.map_map, Function.comp_def, VarDecl.toIField] using hvn
   obtain ⟨hsimple, ws, hj, hco, hab⟩ := dict_coerces cfg fns hy (defs.map (·.toIField)) (defs.map (·.toIField)) a ha hs
     (fun d hd => findField_of_mem _ hnd d hd)
   have hpay : payloadOf (dictOf cfg fns (defs.map (·.toIField)) a) = some ws := by
     rw [payloadOf_simple _ hsimple, hj]
-  refine ⟨⟨opText, ws, calls ++ dumpCallsOf (methodP cfg defs opName opText async).locals.query g⟩, ?_, rfl, hj, ?_⟩
+  refine ⟨⟨opText, ws, dictCalls cfg (defs.map (·.toIField)) a ++ dumpCallsOf (methodP cfg defs opName opText async).locals.query g⟩, ?_, rfl, hj, ?_⟩
   · have hsn : (envOf cfg).snake = cfg.snake := rfl
     simp only [send, hadd, hsn, hg, hcall, hpay]
     rfl
